@@ -52,7 +52,8 @@ fn gen_case(r: &mut Rng, id: usize) -> Case {
         }
     }
     let block = *r.pick(&[24usize, 24, 32, 32, 64, 128, 16384]);
-    let small = r.chance(2, 5); // small key domain: duplicates (PRIMARY KEY is not enforced)
+    let nobg = r.chance(1, 5); // explicit compaction passes (distinct keys then)
+    let small = !nobg && r.chance(2, 5); // small key domain: duplicates (PRIMARY KEY is not enforced)
     let nins = *r.pick(&[1usize, 1, 2, 2, 3]);
     let mut ops = vec![];
     let mut used: Vec<String> = vec![];
@@ -74,6 +75,14 @@ fn gen_case(r: &mut Rng, id: usize) -> Case {
                             v = key_val(r, c.ty, false);
                             tries += 1;
                         }
+                        // compaction cases need distinct keys (merge order of equal keys is the heap's business)
+                        while nobg && used.contains(&canon_value(&v)) {
+                            v = match c.ty {
+                                Ty::I32 => DataValue::Int32(r.range(31, 5000) as i32),
+                                Ty::I64 => DataValue::Int64(r.range(31, 5000)),
+                                Ty::Str => DataValue::String(format!("k{}", r.range(0, 5000)).into()),
+                            };
+                        }
                         used.push(canon_value(&v));
                     }
                     row.push(v);
@@ -91,6 +100,9 @@ fn gen_case(r: &mut Rng, id: usize) -> Case {
             if canon_value(&a) != canon_value(&b) {
                 ops.push(Op::Del(c, a, b));
             }
+        }
+        if nobg && ops.iter().filter(|o| matches!(o, Op::Ins(_))).count() >= 2 && r.chance(1, 2) {
+            ops.push(Op::Compact);
         }
     }
     // queries
@@ -179,7 +191,7 @@ fn gen_case(r: &mut Rng, id: usize) -> Case {
         scans.push(ScanReq { cols: sc.clone(), range: None, sorted: false });
         scans.push(ScanReq { cols: sc, range: Some((lo, hi)), sorted: false });
     }
-    Case { id, block, cols, pk, pkdecl, ops, queries, scans }
+    Case { id, nobg, block, cols, pk, pkdecl, ops, queries, scans }
 }
 
 fn main() {
